@@ -37,6 +37,10 @@ pub enum Op {
     Reopen(usize),
     /// copy every item of s's storage that r's storage lacks (plain file copy, no refresh)
     CopyAll(usize, usize),
+    /// update_object("obj", {"n": n}) on replica r: stages a change that touches no array
+    ObjPut(usize, usize),
+    /// delete_object("obj") on replica r
+    ObjDel(usize),
 }
 
 impl Op {
@@ -54,7 +58,9 @@ impl Op {
             | Op::Snapshot(r)
             | Op::StageRt(r)
             | Op::Reopen(r)
-            | Op::CopyAll(r, _) => *r,
+            | Op::CopyAll(r, _)
+            | Op::ObjPut(r, _)
+            | Op::ObjDel(r) => *r,
         }
     }
     pub fn short(&self) -> String {
@@ -72,6 +78,8 @@ impl Op {
             Op::StageRt(r) => format!("stagert({})", r),
             Op::Reopen(r) => format!("reopen({})", r),
             Op::CopyAll(r, s) => format!("copyall({}<-{})", r, s),
+            Op::ObjPut(r, n) => format!("objput({},{})", r, n),
+            Op::ObjDel(r) => format!("objdel({})", r),
         }
     }
 }
@@ -380,6 +388,23 @@ impl World {
                     Err(e) if e.starts_with("panic:") => Err(e),
                     Err(e) => Ok(Err(e)),
                 }
+            }
+            Op::ObjPut(_, n) => {
+                let m = &self.reps[r].m;
+                let o = json!({"n": n}).as_object().unwrap().clone();
+                call(&label, || {
+                    m.update_object("obj", o)
+                        .map(|x| x.unwrap_or_default())
+                        .map_err(|e| e.to_string())
+                })
+            }
+            Op::ObjDel(_) => {
+                let m = &self.reps[r].m;
+                call(&label, || {
+                    m.delete_object("obj")
+                        .map(|x| x.unwrap_or_default())
+                        .map_err(|e| e.to_string())
+                })
             }
             Op::CopyAll(_, s) => {
                 if *s >= self.reps.len() || *s == r {
